@@ -10,7 +10,7 @@
   and `Op.update chain` (lzma_filters_update); "at every flush completion" is expressed by quantifying over ALL
   histories `ops` that end in the flush in question.
 -/
-import XzVerif.Lemmas.FlushRaw
+import XzVerif.Lemmas.FlushStream2
 import XzVerif.Gen.C12
 
 namespace XzVerif.C12
@@ -136,5 +136,427 @@ theorem sync_flush_decodable (E : Env σ) (hE : ∀ i, (E.codec i).Sound) (fs : 
   obtain ⟨d, hd, ha, hh⟩ := hok.running f3 []
   refine ⟨by simp [f1], d, by simpa using hd, ha.notEnded, ?_⟩
   rw [ha.out, ← hh, f5, List.append_nil]
+
+/-- **flush_then_continue** (raw LZMA2 stream): finishing after any history of RUN / SYNC_FLUSH / update operations
+    returns LZMA_STREAM_END and the whole output is LZMA2 chunks plus the end marker, decoding to the whole input. -/
+theorem raw_finish_decodable (E : Env σ) (hE : ∀ i, (E.codec i).Sound) (fs : Chain) (hfs : SyncChain fs)
+    (ops : List Op) (data : Bytes)
+    (hrun : (Enc.execAll E (Enc.rawInit E fs) ops).1.finished = false) :
+    let r := Enc.execAll E (Enc.rawInit E fs) (ops ++ [.code .finish data])
+    r.2.rets.getLast? = some .streamEnd ∧
+    ∃ d, Decodes (E.codec 0) (Dec.init (E.codec 0)) (bodies r.2.segs) d [] ∧ d.ended = true ∧ d.out = r.2.input := by
+  intro r
+  have hinv := RawInv.execAll hE (RawInv.init E hfs) ops
+  have hr : r = Enc.exec E (Enc.execAll E (Enc.rawInit E fs) ops) (.code .finish data) := execAll_append _ _ _ _
+  obtain ⟨f1, f2, f3⟩ := RawInv.finish hE hinv hrun data
+  have hinv' := RawInv.step hE hinv (.code .finish data)
+  rw [← hr] at f1 f2 f3 hinv'
+  obtain ⟨⟨r'', _, hok⟩, _, _⟩ := hinv'
+  obtain ⟨d, hd, he, ho⟩ := hok.ended f3 []
+  exact ⟨by simp [f1], d, by simpa using hd, he, ho⟩
+
+/-- **sync_flush_refused**: a chain whose LZ coder is LZMA1, or that has a BCJ filter, answers LZMA_SYNC_FLUSH with
+    LZMA_OPTIONS_ERROR in every state (`lzma_code` then makes the error sticky, see `refused_is_fatal`) ... -/
+theorem sync_flush_refused (E : Env σ) (C : Codec σ) (r : RawEnc σ) (h : r.isLzma1 = true ∨ r.pre.canSync = false) (inp : Bytes) :
+    (r.code E C inp .syncFlush).2.2.2 = .optionsError :=
+  RawEnc.sync_refused E C r h inp
+
+/-- ... and emits nothing undecodable: it takes no input, and what a BCJ + LZMA2 chain may still write while refusing
+    are whole LZMA2 chunks of input it had accepted before (a decoder that agreed with the encoder still does). -/
+theorem sync_flush_refused_output (E : Env σ) (C : Codec σ) (hC : C.Sound) (r : RawEnc σ) (h : r.pre.canSync = false)
+    (h1 : r.isLzma1 = false) (inp : Bytes) (d : Dec σ) (ha : Agree C r.l2 d) (tail : Bytes) :
+    (r.code E C inp .syncFlush).2.2.1 = 0 ∧
+    ∃ d', Decodes C d ((r.code E C inp .syncFlush).2.1 ++ tail) d' tail ∧ Agree C (r.code E C inp .syncFlush).1.l2 d'
+      ∧ (r.code E C inp .syncFlush).1.l2.hist ++ (r.code E C inp .syncFlush).1.l2.unenc = r.l2.hist ++ r.l2.unenc :=
+  RawEnc.sync_refused_output hC r h h1 inp d ha tail
+
+/-- the chains the property names: a freshly initialised chain with a BCJ filter, or ending in LZMA1, is in that state -/
+theorem refusing_chains (C : Codec σ) (fs : Chain)
+    (h : chainHasBcj fs = true ∨ (fs.getLast?.map (·.kind == .lzma1)).getD false = true) :
+    (RawEnc.init C fs).isLzma1 = true ∨ (RawEnc.init C fs).pre.canSync = false := by
+  rcases h with h | h
+  · right; simp [RawEnc.init, h]
+  · left; simpa [RawEnc.init] using h
+
+/-- a refused action is a fatal error for `lzma_code`: every later call answers LZMA_PROG_ERROR and writes nothing -/
+theorem refused_is_fatal (E : Env σ) (e : Enc σ) (hd : e.dead = true) (a : Action) (data : Bytes) :
+    (e.codeOp E a data).2.ret = .progError ∧ (e.codeOp E a data).2.segs = [] ∧ (e.codeOp E a data).2.used = 0
+      ∧ (e.codeOp E a data).1 = e := by
+  simp [Enc.codeOp, hd]
+
+/-- **sync_flush_decodable inside a .xz Stream** and **full_flush_ends_block**, in one statement about the state
+    after ANY history followed by a flush that did not fail: with `F` any byte encoding of the container fields,
+    the output so far is Stream Header ++ finished Blocks ++ (an open Block: its header and whole LZMA2 chunks).
+    Every finished Block is non-empty, its chunks + end marker decode to its data, then come Padding and Check;
+    the data of the Blocks (and of the open Block, which the chunks written so far decode to completely)
+    is exactly all input supplied so far. After FULL_FLUSH / FULL_BARRIER no Block is open. -/
+theorem flush_state (E : Env σ) (hE : ∀ i, (E.codec i).Sound) (F : Fmt) (fs : Chain) (check : Nat)
+    (hacc : (StreamEnc.init (E.codec 0) fs check).2 = .ok) (ops : List Op) (a : Action) (ha : a ≠ .run) (data : Bytes)
+    (hrun : (Enc.execAll E (Enc.streamInit E fs check) ops).1.finished = false)
+    (hlive : (Enc.execAll E (Enc.streamInit E fs check) (ops ++ [.code a data])).1.dead = false) :
+    let r := Enc.execAll E (Enc.streamInit E fs check) (ops ++ [.code a data])
+    r.2.rets.getLast? = some .streamEnd ∧
+    ∃ s, r.1.core = .stream s ∧ s.check = check ∧
+      (∀ i b, s.done[i]? = some b → BodyOk E (E.codec i) check b) ∧
+      (a ≠ .syncFlush → s.seq ≠ .blockEncode) ∧
+      (s.seq ≠ .blockEncode → a ≠ .finish →
+          render F r.2.segs = F.streamHeader check ++ doneBytes F s.done ∧ doneData s.done = r.2.input) ∧
+      (s.seq = .blockEncode →
+          render F r.2.segs = F.streamHeader check ++ doneBytes F s.done ++ (F.blockHeader s.openChain none none ++ s.block.emitted) ∧
+          doneData s.done ++ s.block.data = r.2.input ∧ s.block.data ≠ [] ∧
+          ∃ d, Decodes (E.codec s.done.length) (Dec.init (E.codec s.done.length)) s.block.emitted d [] ∧
+            d.ended = false ∧ d.out = s.block.data) := by
+  intro r
+  have hinv := StreamInv.execAll hE (F := F) (StreamInv.init E F hacc) ops
+  have hchk := CheckIs.execAll E (CheckIs.init E fs check) ops
+  have hr : r = Enc.exec E (Enc.execAll E (Enc.streamInit E fs check) ops) (.code a data) := execAll_append _ _ _ _
+  rw [← show r = Enc.execAll E (Enc.streamInit E fs check) (ops ++ [.code a data]) from rfl] at hlive
+  generalize Enc.execAll E (Enc.streamInit E fs check) ops = et at hinv hchk hr hrun
+  obtain ⟨e, t⟩ := et
+  have hal : e.dead = false := by
+    cases hd : e.dead
+    · rfl
+    · rw [hr, Enc.exec_dead E e t _ hd] at hlive; cases hlive
+  rw [hr] at hlive ⊢
+  obtain ⟨s, hcore, hok, c1, c2, c3, c4, c5, c6, hstep⟩ := StreamInv.code_step hE hinv hal hrun a data hlive
+  have hsc : s.check = check := hchk s hcore
+  have hret : (StreamEnc.code E 8 s data a).2.2.2 = .streamEnd := by rw [hstep.ret]; simp [ha]
+  have hso := hstep.ok
+  obtain ⟨hsame1, _⟩ := hstep.same
+  refine ⟨by rw [c4, hret]; simp, _, c1, by rw [hsame1, hsc], ?_, ?_, ?_, ?_⟩
+  · intro i b hib; have := hso.doneOk i b hib; rwa [hsame1, hsc] at this
+  · intro hns; exact hstep.blockEnded ha hns
+  · intro hnb hnf
+    have hfin : (a == Action.finish) = false := by cases a <;> simp at hnf ⊢
+    rw [hfin] at hso
+    have ho := hso.outEq rfl
+    have hi := hso.inEq rfl
+    have hnh := hstep.started
+    simp only [hnh, hnb, if_false, List.append_nil] at ho hi
+    rw [c2, c3, render_append, ho, hi, hsame1, hsc]
+    exact ⟨rfl, rfl⟩
+  · intro hbe
+    have hfin : (a == Action.finish) = false := by
+      cases hf : (a == Action.finish)
+      · rfl
+      · rw [hf] at hso; have := (hso.ended rfl).1; rw [hbe] at this; cases this
+    rw [hfin] at hso
+    have ho := hso.outEq rfl
+    have hi := hso.inEq rfl
+    have hnh := hstep.started
+    simp only [hbe, if_true] at ho hi
+    obtain ⟨hbok, _⟩ := hso.openOk hbe
+    have hsync : a = .syncFlush := by
+      cases a
+      · exact absurd rfl ha
+      · rfl
+      · exact absurd hbe (hstep.blockEnded (by simp) (by simp))
+      · exact absurd hbe (hstep.blockEnded (by simp) (by simp))
+      · exact absurd hbe (hstep.blockEnded (by simp) (by simp))
+    obtain ⟨hun, hheld⟩ := hstep.synced hsync hbe
+    obtain ⟨d, hd, hag, hdata⟩ := hbok.dec []
+    refine ⟨?_, ?_, hso.openNe hbe, d, by simpa using hd, hag.notEnded, ?_⟩
+    · rw [c2, render_append, ho, hsame1, hsc]; simp
+    · rw [c3, hi]
+    · rw [hag.out, ← hdata, hun, hheld]; simp
+
+/-- **full_flush_ends_block**: after ANY history, a FULL_FLUSH or FULL_BARRIER that did not fail returns
+    LZMA_STREAM_END and leaves no Block open: the output so far is Stream Header ++ whole Blocks (each non-empty, each
+    decoding to its data with end marker, Padding and Check), their data is all input so far, and a new Block was
+    created exactly if one was open or the flush brought input — never for a flush as first call or back-to-back flushes. -/
+theorem full_flush_ends_block (E : Env σ) (hE : ∀ i, (E.codec i).Sound) (F : Fmt) (fs : Chain) (check : Nat)
+    (hacc : (StreamEnc.init (E.codec 0) fs check).2 = .ok) (ops : List Op) (a : Action)
+    (ha : a = .fullFlush ∨ a = .fullBarrier) (data : Bytes)
+    (hrun : (Enc.execAll E (Enc.streamInit E fs check) ops).1.finished = false)
+    (hlive : (Enc.execAll E (Enc.streamInit E fs check) (ops ++ [.code a data])).1.dead = false) :
+    let before := Enc.execAll E (Enc.streamInit E fs check) ops
+    let r := Enc.execAll E (Enc.streamInit E fs check) (ops ++ [.code a data])
+    r.2.rets.getLast? = some .streamEnd ∧
+    ∃ s0 s, before.1.core = .stream s0 ∧ r.1.core = .stream s ∧
+      render F r.2.segs = F.streamHeader check ++ doneBytes F s.done ∧
+      doneData s.done = r.2.input ∧
+      (∀ i b, s.done[i]? = some b → BodyOk E (E.codec i) check b) ∧
+      s.done.length = s0.done.length + (if s0.seq = .blockEncode ∨ data ≠ [] then 1 else 0) := by
+  intro before r
+  have hnr : a ≠ .run := by rcases ha with h | h <;> subst h <;> simp
+  have hns : a ≠ .syncFlush := by rcases ha with h | h <;> subst h <;> simp
+  have hnf : a ≠ .finish := by rcases ha with h | h <;> subst h <;> simp
+  obtain ⟨h1, s, hc, hchk, hdone, hnb, hflat, _⟩ := flush_state E hE F fs check hacc ops a hnr data hrun hlive
+  obtain ⟨hrender, hdata⟩ := hflat (hnb hns) hnf
+  -- the Block count
+  have hinv := StreamInv.execAll hE (F := F) (StreamInv.init E F hacc) ops
+  have hr : r = Enc.exec E before (.code a data) := execAll_append _ _ _ _
+  have hlive' : (Enc.exec E before (.code a data)).1.dead = false := by rw [← hr]; exact hlive
+  have hal : before.1.dead = false := by
+    cases hd : before.1.dead
+    · rfl
+    · rw [Enc.exec_dead E before.1 before.2 _ hd] at hlive'; cases hlive'
+  obtain ⟨s0, hcore0, _, c1, _, _, _, _, _, hstep⟩ := StreamInv.code_step hE hinv hal hrun a data hlive'
+  rw [← hr] at c1
+  rw [hc] at c1; cases c1
+  refine ⟨h1, s0, _, hcore0, hc, hrender, hdata, hdone, ?_⟩
+  rw [hstep.count]
+  have : (a = .fullFlush ∨ a = .fullBarrier ∨ a = .finish) := by rcases ha with h | h <;> simp [h]
+  simp [this]
+
+/-- **flush_then_continue**: finishing after ANY history (flushes with or without input, back-to-back flushes, accepted
+    and refused updates, ...) that did not fail returns LZMA_STREAM_END, and the whole output is
+    Stream Header ++ Blocks ++ Index ++ Stream Footer, where every Block is non-empty and decodes (chunks, end marker,
+    Padding, Check) to its data, the data of all Blocks is the whole input, and the Index has one Record per Block
+    with that Block's Uncompressed Size. -/
+theorem flush_then_continue (E : Env σ) (hE : ∀ i, (E.codec i).Sound) (F : Fmt) (fs : Chain) (check : Nat)
+    (hacc : (StreamEnc.init (E.codec 0) fs check).2 = .ok) (ops : List Op) (data : Bytes)
+    (hrun : (Enc.execAll E (Enc.streamInit E fs check) ops).1.finished = false)
+    (hlive : (Enc.execAll E (Enc.streamInit E fs check) (ops ++ [.code .finish data])).1.dead = false) :
+    let r := Enc.execAll E (Enc.streamInit E fs check) (ops ++ [.code .finish data])
+    r.2.rets.getLast? = some .streamEnd ∧ r.1.finished = true ∧
+    ∃ (blocks : List DoneBlock) (records : List (Nat × Nat)),
+      render F r.2.segs = F.streamHeader check ++ doneBytes F blocks ++ F.index records ++ F.streamFooter check records ∧
+      doneData blocks = r.2.input ∧
+      (∀ i b, blocks[i]? = some b → BodyOk E (E.codec i) check b) ∧
+      records.map (·.2) = blocks.map (·.data.length) := by
+  intro r
+  have hinv := StreamInv.execAll hE (F := F) (StreamInv.init E F hacc) ops
+  have hchk := CheckIs.execAll E (CheckIs.init E fs check) ops
+  have hr : r = Enc.exec E (Enc.execAll E (Enc.streamInit E fs check) ops) (.code .finish data) := execAll_append _ _ _ _
+  rw [← show r = Enc.execAll E (Enc.streamInit E fs check) (ops ++ [.code .finish data]) from rfl] at hlive
+  generalize Enc.execAll E (Enc.streamInit E fs check) ops = et at hinv hchk hr hrun
+  obtain ⟨e, t⟩ := et
+  have hal : e.dead = false := by
+    cases hd : e.dead
+    · rfl
+    · rw [hr, Enc.exec_dead E e t _ hd] at hlive; cases hlive
+  rw [hr] at hlive ⊢
+  obtain ⟨s, hcore, hok, c1, c2, c3, c4, c5, c6, hstep⟩ := StreamInv.code_step hE hinv hal hrun .finish data hlive
+  have hsc : s.check = check := hchk s hcore
+  have hso := hstep.ok
+  obtain ⟨hsame1, _⟩ := hstep.same
+  obtain ⟨_, hout, hin⟩ := hso.ended rfl
+  refine ⟨by rw [c4, hstep.ret]; simp, by rw [c5]; rfl, _, _, ?_, ?_, ?_, hso.usizes⟩
+  · rw [c2, render_append, hout, hsame1, hsc]
+  · rw [c3, hin]
+  · intro i b hib; have := hso.doneOk i b hib; rwa [hsame1, hsc] at this
+
+/-- **update_between_blocks**: `lzma_filters_update` while no Block is open (before the first Block or after a
+    FULL_FLUSH/FULL_BARRIER) replaces the whole chain iff the Block encoder accepts it; the next Block is made with
+    it (`update_between_blocks_header`), and by `flush_then_continue` (which ranges over histories WITH updates) the
+    finished Stream still decodes to the whole input. A chain that is not accepted leaves the old one in place. -/
+theorem update_between_blocks (C : Codec σ) (s : StreamEnc σ) (fs : Chain)
+    (hseq : s.seq = .streamHeader ∨ s.seq = .blockInit) (hlen : fs.length ≤ FILTERS_MAX) :
+    (∀ b h, streamBlockInit C fs s.check = .ok (b, h) →
+        s.update C fs = ({ s with blockInited := true, block := b, headerSize := h, filters := fs }, .ok)) ∧
+    (∀ r, streamBlockInit C fs s.check = .error r → s.update C fs = ({ s with blockInited := false }, r)) := by
+  have h1 : ¬ fs.length > FILTERS_MAX := by omega
+  have h2 : s.seq.code ≤ SSeq.blockInit.code := by rcases hseq with h | h <;> rw [h] <;> decide
+  constructor
+  · intro b h hok; simp [StreamEnc.update, h1, h2, hok]
+  · intro r herr; simp [StreamEnc.update, h1, h2, herr]
+
+/-- the Block started after an accepted update carries the new chain in its Block Header -/
+theorem update_between_blocks_header (E : Env σ) (s : StreamEnc σ) (hs : s.seq = .blockInit) (hbi : s.blockInited = true)
+    (inp : Bytes) (hne : inp ≠ []) (a : Action) (fuel : Nat) :
+    (StreamEnc.code E (fuel + 1) s inp a).2.1.head? = some (Seg.blockHeader s.filters none none) := by
+  rw [StreamEnc.code_init_data E fuel s hs inp hne a]
+  simp [hbi]
+
+/-- **update_after_sync**: right after a completed SYNC_FLUSH (nothing unencoded, i.e. lzma2_encode is at SEQ_INIT)
+    a change of lc/lp/pb to valid values is accepted; it takes effect at the next chunk, whose header carries the new
+    properties byte (control >= 0xC0) and which is encoded from a reset state. That the stream stays decodable is
+    `sync_flush_decodable` / `flush_state`, whose histories include such updates. -/
+theorem update_after_sync (l : L2 σ) (p : Props) (hflushed : l.unenc = []) (hp : p.valid = true) (hne : l.opt ≠ p) :
+    (l.optionsUpdate p).2 = .ok ∧ (l.optionsUpdate p).1.opt = p ∧
+    (l.optionsUpdate p).1.needProps = true ∧ (l.optionsUpdate p).1.needStateReset = true ∧
+    (l.optionsUpdate p).1.hist = l.hist ∧ (l.optionsUpdate p).1.unenc = l.unenc ∧
+    ∀ (C : Codec σ) (nd : Bool) (n cs : Nat),
+      lzmaHeader true true nd p n cs = [byte ((if nd then 0xE0 else 0xC0) + (n - 1) / 65536), byte ((n - 1) / 256), byte (n - 1),
+        byte ((cs - 1) / 256), byte (cs - 1), byte p.byte] ∧
+      L2.startState C (l.optionsUpdate p).1 = C.reset p := by
+  have hi : l.atSeqInit = true := by simp [L2.atSeqInit, hflushed]
+  have hb : (l.opt != p) = true := by simpa using hne
+  refine ⟨by simp [L2.optionsUpdate, hi, hb, hp], by simp [L2.optionsUpdate, hi, hb, hp], by simp [L2.optionsUpdate, hi, hb, hp],
+    by simp [L2.optionsUpdate, hi, hb, hp], by simp [L2.optionsUpdate, hi, hb, hp], by simp [L2.optionsUpdate, hi, hb, hp], ?_⟩
+  intro C nd n cs
+  constructor
+  · cases nd <;> simp [lzmaHeader, lzmaControl]
+  · simp [L2.startState, L2.optionsUpdate, hi, hb, hp]
+
+/-- an update in the middle of a chunk (input has been handed in since the last flush) is refused -/
+theorem update_mid_chunk_refused (l : L2 σ) (p : Props) (h : l.unenc ≠ []) : (l.optionsUpdate p).2 = .progError := by
+  have : l.atSeqInit = false := by simpa [L2.atSeqInit] using h
+  simp [L2.optionsUpdate, this]
+
+/-- **update_refused_safe** (LZMA2 coder): a refused option change leaves the coder exactly as it was. -/
+theorem update_refused_safe_lzma2 (l : L2 σ) (p : Props) (h : (l.optionsUpdate p).2 ≠ .ok) : (l.optionsUpdate p).1 = l :=
+  optionsUpdate_refused p h
+
+/-- **update_refused_safe** (Stream encoder): whatever `lzma_filters_update` answers, the invariant behind
+    `flush_state` / `full_flush_ends_block` / `flush_then_continue` keeps holding, so encoding continues to a valid
+    Stream of the whole input; and a refused update changes neither the chain for future Blocks, nor the position in
+    the Stream, nor the Index, nor anything already written. -/
+theorem update_refused_safe (E : Env σ) (F : Fmt) (s : StreamEnc σ) (out input : Bytes) (fin : Bool)
+    (h : StreamOk E F s out input fin) (fs : Chain) :
+    StreamOk E F (s.update (E.codec s.records.length) fs).1 out input fin ∧
+    ((s.update (E.codec s.records.length) fs).2 ≠ .ok →
+      (s.update (E.codec s.records.length) fs).1.filters = s.filters ∧
+      (s.update (E.codec s.records.length) fs).1.seq = s.seq ∧
+      (s.update (E.codec s.records.length) fs).1.records = s.records ∧
+      (s.update (E.codec s.records.length) fs).1.done = s.done ∧
+      (s.update (E.codec s.records.length) fs).1.block.emitted = s.block.emitted) := by
+  refine ⟨StreamEnc.update_ok h fs, ?_⟩
+  intro hne
+  unfold StreamEnc.update at hne ⊢
+  by_cases hlen : fs.length > FILTERS_MAX
+  · simp [hlen]
+  simp only [hlen, if_false] at hne ⊢
+  by_cases h1 : s.seq.code ≤ SSeq.blockInit.code
+  · simp only [h1, if_true] at hne ⊢
+    cases hsi : streamBlockInit (E.codec s.records.length) fs s.check with
+    | error r => simp
+    | ok p => simp [hsi] at hne
+  · simp only [h1, if_false] at hne ⊢
+    by_cases h2 : s.seq.code ≤ SSeq.blockEncode.code
+    · simp only [h2, if_true] at hne ⊢
+      by_cases hr : (s.block.update fs).2 = .ok
+      · simp [hr] at hne
+      · have : ((s.block.update fs).2 != .ok) = true := by simpa using hr
+        simp only [this, if_true]
+        refine ⟨trivial, trivial, trivial, trivial, ?_⟩
+        -- block_encoder_update never touches what was written
+        unfold BlockEnc.update
+        split
+        · rfl
+        · split
+          · split <;> rfl
+          · rfl
+    · simp [h2]
+
+/-- The threaded encoder's flush theorems are C08's (`mtenc_full_flush`, `mtenc_full_barrier`); the part modelled here
+    is its update rule: refused while a Block is being collected, otherwise the chain for future Blocks is replaced. -/
+theorem mt_update_rule (m : MtEnc) (fs : Chain) :
+    (m.cur ≠ [] → m.update fs = (m, .progError) ∨ m.ended = true) ∧
+    (m.ended = false → m.cur = [] → memusageOk fs = true → fs.length ≤ FILTERS_MAX → m.update fs = ({ m with filters := fs }, .ok)) := by
+  constructor
+  · intro h
+    by_cases he : m.ended = true
+    · right; exact he
+    · left
+      have : m.cur.isEmpty = false := by cases hc : m.cur <;> simp_all
+      simp [MtEnc.update, he, this]
+  · intro he hc hm hl
+    have : ¬ fs.length > FILTERS_MAX := by omega
+    simp [MtEnc.update, he, hc, hm, this]
+
+/-! ## Non-vacuity: a concrete compressor that satisfies the contract, and concrete histories -/
+
+/-- A toy compressor: two equal bytes become a one-byte LZMA chunk ("run of two"), anything else a stored chunk of one
+    byte; under LZMA_RUN it never closes a chunk. -/
+def toyCodec : Codec Unit :=
+  { reset := fun _ => ()
+    choose := fun fl _ _ _ a =>
+      if !fl then none
+      else match a with
+        | x :: y :: _ => if x == y then some (⟨2, [x]⟩, ()) else some (⟨1, [x]⟩, ())
+        | [x] => some (⟨1, [x]⟩, ())
+        | [] => none
+    dec := fun _ _ _ payload n =>
+      match payload with
+      | [x] => some (List.replicate n x, ())
+      | _ => none }
+
+theorem toyCodec_sound : toyCodec.Sound := by
+  constructor
+  · intro fl p s d a ch s' h
+    cases fl
+    · simp [toyCodec] at h
+    · match a, h with
+      | [], h => simp [toyCodec] at h
+      | [x], h =>
+        simp [toyCodec] at h; obtain ⟨rfl, _⟩ := h
+        simp [Choice.isLzma, LZMA2_UNCOMPRESSED_MAX, LZMA2_CHUNK_MAX]
+      | x :: y :: rest, h =>
+        simp only [toyCodec, Bool.not_true, Bool.false_eq_true, if_false] at h
+        by_cases hxy : (x == y) = true
+        · simp [hxy] at h; obtain ⟨rfl, _⟩ := h
+          simp [Choice.isLzma, LZMA2_UNCOMPRESSED_MAX, LZMA2_CHUNK_MAX]
+        · simp [hxy] at h; obtain ⟨rfl, _⟩ := h
+          simp [Choice.isLzma, LZMA2_UNCOMPRESSED_MAX, LZMA2_CHUNK_MAX]
+  · intro p s d a ch s' h; simp [toyCodec] at h
+  · intro p s d a ha
+    match a, ha with
+    | [x], _ => simp [toyCodec]
+    | x :: y :: rest, _ =>
+      simp only [toyCodec, Bool.not_true, Bool.false_eq_true, if_false]
+      by_cases hxy : (x == y) = true <;> simp [hxy]
+  · intro fl p s d a ch s' h hz
+    cases fl
+    · simp [toyCodec] at h
+    · match a, h with
+      | [], h => simp [toyCodec] at h
+      | [x], h =>
+        simp [toyCodec] at h; obtain ⟨rfl, _⟩ := h
+        simp [Choice.isLzma] at hz
+      | x :: y :: rest, h =>
+        simp only [toyCodec, Bool.not_true, Bool.false_eq_true, if_false] at h
+        by_cases hxy : (x == y) = true
+        · simp [hxy] at h; obtain ⟨rfl, rfl⟩ := h
+          have : x = y := by simpa using hxy
+          subst this
+          simp [toyCodec, List.replicate]
+        · simp [hxy] at h; obtain ⟨rfl, _⟩ := h
+          simp [Choice.isLzma] at hz
+
+def toyEnv : Env Unit :=
+  { codec := fun _ => toyCodec, hold := fun _ _ => 0, checkBytes := fun id _ => List.replicate (checkSize id) 0,
+    mtStored := fun _ _ => false, mtHeaderSize := fun _ _ => 16 }
+
+def lzma2Chain : Chain := [{ id := ID_LZMA2, props := ⟨3, 0, 2⟩, dict := 65536 }]
+def deltaLzma2 : Chain := [{ id := ID_DELTA, dist := 1 }, { id := ID_LZMA2, props := ⟨0, 2, 1⟩, dict := 4096 }]
+def x86Lzma2 : Chain := [{ id := ID_X86 }, { id := ID_LZMA2, props := ⟨3, 0, 2⟩, dict := 65536 }]
+def lzma1Chain : Chain := [{ id := ID_LZMA1, props := ⟨3, 0, 2⟩, dict := 65536 }]
+
+example : SyncChain lzma2Chain := ⟨⟨_, rfl, by decide, by decide⟩, by decide⟩
+example : SyncChain deltaLzma2 := ⟨⟨_, rfl, by decide, by decide⟩, by decide⟩
+example : (StreamEnc.init (toyEnv.codec 0) lzma2Chain 4).2 = .ok := by decide
+example : (StreamEnc.init (toyEnv.codec 0) deltaLzma2 1).2 = .ok := by decide
+/-- LZMA1 cannot be put into a .xz Block (filter_flags: ID >= LZMA_FILTER_RESERVED_START) -/
+example : (StreamEnc.init (toyEnv.codec 0) lzma1Chain 4).2 = .progError := by decide
+
+/-- a history with a flush as first call, back-to-back flushes, an update after SYNC_FLUSH, a mid-chunk (refused)
+    update, an update between Blocks, and flushes carrying input -/
+def demoOps : List Op :=
+  [.code .fullFlush [], .code .syncFlush [], .code .run [7, 7, 1], .code .syncFlush [2],
+   .update [{ id := ID_LZMA2, props := ⟨0, 0, 0⟩, dict := 65536 }], .code .run [5, 5],
+   .update [{ id := ID_LZMA2, props := ⟨1, 1, 1⟩, dict := 65536 }],
+   .code .fullFlush [], .code .fullBarrier [], .update deltaLzma2, .code .fullBarrier [9, 9, 9], .code .finish [4]]
+
+/-- ... runs without error, ends finished, and its return codes are what liblzma gives (update mid-chunk: PROG_ERROR) -/
+example : ((Enc.execAll toyEnv (Enc.streamInit toyEnv lzma2Chain 4) demoOps).1.dead,
+           (Enc.execAll toyEnv (Enc.streamInit toyEnv lzma2Chain 4) demoOps).1.finished,
+           (Enc.execAll toyEnv (Enc.streamInit toyEnv lzma2Chain 4) demoOps).2.rets.map Ret.toNat)
+    = (false, true, [1, 1, 0, 1, 0, 0, 11, 1, 1, 0, 1, 1]) := by decide
+
+/-- ... and the executable chunk decoder reads back all input after the SYNC_FLUSH of the raw encoder -/
+example :
+    let r := Enc.execAll toyEnv (Enc.rawInit toyEnv lzma2Chain)
+      [.code .syncFlush [], .code .run [7, 7, 1], .code .syncFlush [2],
+       .update [{ id := ID_LZMA2, props := ⟨0, 0, 0⟩, dict := 65536 }], .code .run [5, 5], .code .syncFlush []]
+    (lzma2Decode toyCodec (bodies r.2.segs)).map (fun d => (d.1.out, d.1.ended, d.2)) = some (r.2.input, false, [])
+      ∧ r.2.input = [7, 7, 1, 2, 5, 5] := by decide
+
+/-- chains that cannot honour a sync flush refuse it -/
+example : ((Enc.execAll toyEnv (Enc.rawInit toyEnv x86Lzma2) [.code .run [1, 2, 3], .code .syncFlush [], .code .run [4]]).2.rets.map Ret.toNat)
+    = [0, 8, 11] := by decide
+example : ((Enc.execAll toyEnv (Enc.rawInit toyEnv lzma1Chain) [.code .run [1, 2, 3], .code .syncFlush []]).2.rets.map Ret.toNat)
+    = [0, 8] := by decide
+
+/-- the theorems apply to the toy instance: all their hypotheses are satisfiable together -/
+example := sync_flush_decodable toyEnv (fun _ => toyCodec_sound) lzma2Chain ⟨⟨_, rfl, by decide, by decide⟩, by decide⟩
+  [.code .run [7, 7, 1], .code .syncFlush [], .update [{ id := ID_LZMA2, props := ⟨0, 0, 0⟩, dict := 65536 }]] [5, 5] (by decide)
+
+example (F : Fmt) := flush_then_continue toyEnv (fun _ => toyCodec_sound) F lzma2Chain 4 (by decide) (demoOps.dropLast) [4]
+  (by decide) (by decide)
+
+example (F : Fmt) := full_flush_ends_block toyEnv (fun _ => toyCodec_sound) F lzma2Chain 4 (by decide)
+  [.code .fullFlush [], .code .run [1, 1]] .fullBarrier (Or.inr rfl) [] (by decide) (by decide)
 
 end XzVerif.C12
